@@ -47,6 +47,9 @@ fn programs(fair: bool) -> Vec<Program> {
     v.push(mk("evicting-put(c)||upsert(a,w)||delete(b)", 4, vec![put(1, 2), put(2, 1)], vec![vec![put(3, 3)], vec![ups(1, Some(1), None, false)], vec![del(2)]]));
     // sweep evicting while the worker evicts and a reader hands a buffer over
     v.push(mk("evicting-put(c)||{tick}||get(b);get(b)", 4, vec![put_ttl(1, 2, 1000), put(2, 1), adv(3000)], vec![vec![put(3, 3)], vec![Op::Tick], vec![get(2), get(2)]]));
+    // two expired TTL keys in one expiry shard: the sweeper evicts one while the worker evicts the other
+    v.push(mk("evicting-put(c)||{tick} sweeping a and b (both TTL, expired)", 4, vec![put_ttl(1, 2, 1000), put_ttl(2, 1, 1000), adv(3000)], vec![vec![put(3, 3)], vec![Op::Tick]]));
+    v.push(mk("evicting-put_ttl(c)||{tick} sweeping b||delete(a)", 4, vec![put_ttl(1, 2, 5000), put_ttl(2, 1, 1000), adv(3000)], vec![vec![put_ttl(3, 3, 5000)], vec![Op::Tick], vec![del(1)]]));
     // shutdown vs. everything
     {
         let mut p = mk("shutdown||upsert(a,ttl)||get(a);put(c)", 100, vec![put_ttl(1, 30, 1000)], vec![vec![Op::Shutdown], vec![ups(1, Some(30), Some(9000), false)], vec![get(1), put(3, 2)]]);
